@@ -40,7 +40,7 @@ func init() {
 			{Name: "p2", Env: []string{"GOMAXPROCS=3"}, Shards: 7},
 			{Name: "race", BuildFlags: []string{"-race"}, Env: []string{"GORACE=halt_on_error=0 log_path=" + raceLogPrefix()}, Shards: 4},
 		},
-		RequiredMonitors: []string{"operand-unchanged", "repeat-identical", "concurrent-identical", "race-log"},
+		RequiredMonitors: []string{"operand-unchanged", "repeat-identical", "concurrent-identical", "race-log", "constructor-aliasing", "accessor-aliasing"},
 		Run:              runAll,
 	})
 	run.PostHooks["C10"] = post
@@ -426,11 +426,199 @@ func runAll(c *run.Ctx) {
 			k.Digest(key, shortHash(first))
 		})
 	}
+	if c.Variant == "" {
+		for i := 0; i < c.N(3000, 40000); i++ {
+			c.Case("aliasing", i, aliasing)
+		}
+	}
 	// concurrent phase without the race detector as well (determinism under real parallelism)
 	c.Case("concurrent", 0, func(k *run.K) {
 		k.Nontrivial("concurrent")
 		concurrent(k, w, calls, []int{4, 16}, c.N(3000, 20000))
 	})
+}
+
+// aliasing: constructors must not write to the member slice they are given nor keep it (a later write by the
+// caller must not show through), and slices returned by accessors must be copies (a write by the caller must
+// not change the geometry).
+func aliasing(k *run.K) {
+	r := k.Rng
+	gg := &gen.G{R: r, Cfg: gen.NewCfg(r, gen.DSmall)}
+	cts := []geom.CoordinatesType{geom.DimXY, geom.DimXYZ, geom.DimXYM, geom.DimXYZM}
+	n := r.Range(1, 4)
+	kind := r.Intn(5)
+	k.In("constructor", []string{"NewPolygon", "NewMultiPoint", "NewMultiLineString", "NewMultiPolygon", "NewGeometryCollection"}[kind])
+	mk := func() geom.Geometry { // a member of the right type with a random coordinate type (mixed inputs get reduced)
+		var t geom.GeometryType
+		switch kind {
+		case 0, 2:
+			t = geom.TypeLineString
+		case 1:
+			t = geom.TypePoint
+		case 3:
+			t = geom.TypePolygon
+		default:
+			t = gen.AllTypes[r.Intn(7)]
+		}
+		x := gg.Typed(t, 0)
+		if kind == 0 { // rings: a closed line
+			x = gg.Typed(geom.TypePolygon, 0).MustAsPolygon().ExteriorRing().AsGeometry()
+		}
+		return x.ForceCoordinatesType(cts[r.Intn(4)])
+	}
+	members := make([]geom.Geometry, n, n+3) // spare capacity: an append by the callee would be visible too
+	for i := range members {
+		members[i] = mk()
+	}
+	spare := mk()
+	before := make([]string, n)
+	for i, m := range members {
+		before[i] = snapshot(m)
+	}
+	var built geom.Geometry
+	var poke func(i int, g geom.Geometry)
+	var peek func(i int) geom.Geometry
+	if k.Lib("nopanic", func() {
+		switch kind {
+		case 0:
+			in := make([]geom.LineString, n, n+3)
+			for i, m := range members {
+				in[i] = m.MustAsLineString()
+			}
+			built = geom.NewPolygon(in).AsGeometry()
+			peek = func(i int) geom.Geometry { return in[i].AsGeometry() }
+			poke = func(i int, g geom.Geometry) { in[i] = g.MustAsLineString() }
+		case 1:
+			in := make([]geom.Point, n, n+3)
+			for i, m := range members {
+				in[i] = m.MustAsPoint()
+			}
+			built = geom.NewMultiPoint(in).AsGeometry()
+			peek = func(i int) geom.Geometry { return in[i].AsGeometry() }
+			poke = func(i int, g geom.Geometry) { in[i] = g.MustAsPoint() }
+		case 2:
+			in := make([]geom.LineString, n, n+3)
+			for i, m := range members {
+				in[i] = m.MustAsLineString()
+			}
+			built = geom.NewMultiLineString(in).AsGeometry()
+			peek = func(i int) geom.Geometry { return in[i].AsGeometry() }
+			poke = func(i int, g geom.Geometry) { in[i] = g.MustAsLineString() }
+		case 3:
+			in := make([]geom.Polygon, n, n+3)
+			for i, m := range members {
+				in[i] = m.MustAsPolygon()
+			}
+			built = geom.NewMultiPolygon(in).AsGeometry()
+			peek = func(i int) geom.Geometry { return in[i].AsGeometry() }
+			poke = func(i int, g geom.Geometry) { in[i] = g.MustAsPolygon() }
+		default:
+			in := members
+			built = geom.NewGeometryCollection(in).AsGeometry()
+			peek = func(i int) geom.Geometry { return in[i] }
+			poke = func(i int, g geom.Geometry) { in[i] = g }
+		}
+	}) {
+		return
+	}
+	k.Nontrivial(snapshot(built))
+	for i := 0; i < n; i++ {
+		k.Check("constructor-aliasing", snapshot(peek(i)) == before[i], "constructor changed element %d of the slice it was given: %s", i, peek(i).AsText())
+	}
+	snapBuilt := snapshot(built)
+	for i := 0; i < n; i++ {
+		poke(i, spare)
+	}
+	k.Check("constructor-aliasing", snapshot(built) == snapBuilt, "the constructed geometry changed when the caller overwrote the slice it had passed in: %s", built.AsText())
+	// accessor results are copies
+	type acc struct {
+		name string
+		fn   func() func()
+	}
+	var accs []acc
+	add := func(name string, fn func() func()) { accs = append(accs, acc{name, fn}) }
+	add("Dump", func() func() {
+		d := built.Dump()
+		return func() {
+			for i := range d {
+				d[i] = spare
+			}
+		}
+	})
+	switch {
+	case built.IsPolygon():
+		add("DumpRings", func() func() {
+			d := built.MustAsPolygon().DumpRings()
+			return func() {
+				for i := range d {
+					d[i] = geom.LineString{}
+				}
+			}
+		})
+	case built.IsMultiPoint():
+		add("MultiPoint.Dump", func() func() {
+			d := built.MustAsMultiPoint().Dump()
+			return func() {
+				for i := range d {
+					d[i] = geom.Point{}
+				}
+			}
+		})
+	case built.IsMultiLineString():
+		add("MultiLineString.Dump", func() func() {
+			d := built.MustAsMultiLineString().Dump()
+			return func() {
+				for i := range d {
+					d[i] = geom.LineString{}
+				}
+			}
+		})
+		add("Coordinates", func() func() {
+			d := built.MustAsMultiLineString().Coordinates()
+			return func() {
+				for i := range d {
+					d[i] = geom.Sequence{}
+				}
+			}
+		})
+	case built.IsMultiPolygon():
+		add("MultiPolygon.Dump", func() func() {
+			d := built.MustAsMultiPolygon().Dump()
+			return func() {
+				for i := range d {
+					d[i] = geom.Polygon{}
+				}
+			}
+		})
+		add("Coordinates", func() func() {
+			d := built.MustAsMultiPolygon().Coordinates()
+			return func() {
+				for i := range d {
+					for j := range d[i] {
+						d[i][j] = geom.Sequence{}
+					}
+				}
+			}
+		})
+	case built.IsGeometryCollection():
+		add("GeometryCollection.Dump", func() func() {
+			d := built.MustAsGeometryCollection().Dump()
+			return func() {
+				for i := range d {
+					d[i] = spare
+				}
+			}
+		})
+	}
+	for _, a := range accs {
+		var write func()
+		if k.Lib("nopanic", func() { write = a.fn() }) {
+			continue
+		}
+		write()
+		k.Check("accessor-aliasing", snapshot(built) == snapBuilt, "writing to the slice returned by %s changed the geometry: %s", a.name, built.AsText())
+		k.Count("accessor_slices_overwritten", 1)
+	}
 }
 
 func shortHash(s string) string {
